@@ -250,6 +250,8 @@ structure St where
   closed : Bool := false
   clock : Nat := 0
   log : List Ev := []
+  /-- the `added` lists of the boxings in progress (innermost first): keys registered for a message not yet written -/
+  addStack : List (List Val) := []
   deriving Repr, Inhabited
 
 /-- a well-framed message: its payload decodes to a value, or fails to decode with `e` -/
@@ -486,7 +488,19 @@ def tableGet (key : Val) : M Nat := fun _ st fut =>
 
 /-- `self._local_objects.add(key, obj)` -/
 def addSlot (key : Val) (o : Nat) : M Unit :=
-  modify (fun st => { st with table := tableAdd st.table key o, log := st.log ++ [.lent key o] })
+  modify (fun st => { st with table := tableAdd st.table key o, log := st.log ++ [.lent key o],
+                              addStack := match st.addStack with
+                                | [] => []
+                                | top :: rest => (top ++ [key]) :: rest })
+
+/-- `decref(id_pack)` of `_unregister`, `KeyError` swallowed -/
+def unregOne (tbl : List Slot) (key : Val) : List Slot :=
+  match lookupSlot tbl key with
+  | none => tbl
+  | some s => if s.cnt < 1 then tableRemove tbl key else tableSet tbl key (s.cnt - 1)
+
+/-- `_unregister(added)`: what a boxing registered for a message that is never written is taken back -/
+def unregister (added : List Val) : M Unit := modify (fun st => { st with table := added.foldl unregOne st.table })
 
 /-- write one frame: fails with `EOFError` on a closed connection -/
 def sendFrame (e : Ev) : M Unit := fun _ st fut =>
@@ -530,19 +544,43 @@ def boxWith (s : M PV) : Nat → PV → M Val
       pure (.tuple [.int Gen.Handlers.labelRemoteRef, key])
     | _ => throwE .notModelled
 
-/-- `sync_request(h, *args)`: box the arguments, register the callback, write the request, wait -/
-def requestWith (s : M PV) (h : Nat) (args : List PV) : M PV := do
+/-- `self._box(x, added)` with its `added` list: the boxed form or the exception, and the keys it registered -/
+def boxCollect (s : M PV) (v : PV) : M (Except Exc Val × List Val) := do
   let c ← getCtx
-  let boxed ← boxWith s c.depth (mkTuple args)
+  modify (fun st => { st with addStack := [] :: st.addStack })
+  let r ← attempt (boxWith s c.depth v)
+  let st ← getSt
+  modify (fun st => { st with addStack := st.addStack.drop 1 })
+  pure (r, st.addStack.headD [])
+
+def encodable (v : Val) : Except Err Unit :=
+  match Brine.dump v with
+  | .ok _ => .ok ()
+  | .error e => .error e
+
+/-- the `except Exception:` suite of `_async_request`: take the registrations back, forget the callback, re-raise -/
+def requestFailed (seq : Nat) (added : List Val) (x : Exc) : M PV := do
+  unregister added
+  modify (fun st => { st with pending := st.pending.filter (fun p => p.1 != seq) })
+  throwX x
+
+/-- `sync_request(h, *args)`: take a sequence number and register the callback, box the arguments, write the request
+(a failure to box, encode or write takes the registrations back), wait -/
+def requestWith (s : M PV) (h : Nat) (args : List PV) : M PV := do
   let st ← getSt
   let seq := st.nextSeq
   modify (fun st => { st with nextSeq := seq + 1, pending := st.pending ++ [(seq, false)] })
-  let sent ← attempt (sendFrame (.outReq seq h boxed))
-  match sent with
-  | .error x => do
-    modify (fun st => { st with pending := st.pending.filter (fun p => p.1 != seq) })
-    throwX x
-  | .ok _ => awaitReply seq
+  let (r, added) ← boxCollect s (mkTuple args)
+  match r with
+  | .error x => if x.isException then requestFailed seq added x else throwX x
+  | .ok boxed =>
+    match encodable boxed with
+    | .error e => requestFailed seq added (Exc.ofErr e)
+    | .ok _ => do
+      let sent ← attempt (sendFrame (.outReq seq h boxed))
+      match sent with
+      | .error x => requestFailed seq added x
+      | .ok _ => awaitReply seq
 
 /-- the environment finishes the primitive operation in progress, possibly after callbacks (at most `n`) -/
 def settle : Nat → M PV
@@ -561,9 +599,9 @@ def prim (t : Touch) : M PV := do
   let c ← getCtx
   settle c.maxCb
 
-def boxTop (v : PV) : M Val := do
+def boxTop (v : PV) : M (Except Exc Val × List Val) := do
   let c ← getCtx
-  boxWith (settle c.maxCb) c.depth v
+  boxCollect (settle c.maxCb) v
 
 def requestTop (h : Nat) (args : List PV) : M PV := do
   let c ← getCtx
@@ -1007,33 +1045,45 @@ def sendExc (seq : Val) (x : Exc) : M Unit := fun _ st fut =>
   if st.closed then ⟨.error eofExc, { st with log := st.log ++ [.aborted seq eofExc.cls] }, fut⟩
   else ⟨.ok (), { st with log := st.log ++ [.exc seq x.cls] }, fut⟩
 
-def encodable (v : Val) : Except Err Unit :=
-  match Brine.dump v with
-  | .ok _ => .ok ()
-  | .error e => .error e
+/-- the request's exception is re-raised in the serving thread -/
+def abortWith (seq : Val) (x : Exc) : M Unit := fun _ st fut =>
+  ⟨.error x, { st with log := st.log ++ [.aborted seq x.cls] }, fut⟩
 
-/-- `self._send(consts.MSG_REPLY, seq, self._box(res))` and what follows a failure -/
-def sendResult (seq : Val) (res : PV) : M Unit := fun c st fut =>
-  match boxTop res c st fut with
-  | ⟨.error x, st1, fut1⟩ =>
-    if x.eof || !x.isException then ⟨.error x, { st1 with log := st1.log ++ [.aborted seq x.cls] }, fut1⟩
-    else sendExc seq x c st1 fut1
-  | ⟨.ok b, st1, fut1⟩ =>
+/-- write the reply frame, or find the channel closed -/
+def sendReply (seq : Val) (b : Val) (added : List Val) : M Unit := fun c st fut =>
+  if st.closed then (do unregister added; abortWith seq eofExc) c st fut
+  else ⟨.ok (), { st with log := st.log ++ [.reply seq b] }, fut⟩
+
+/-- `self._send(consts.MSG_REPLY, seq, self._box(res, added))` and what follows a failure: `EOFError` → registrations
+taken back, re-raised; any other `Exception` (the result cannot be boxed or encoded) → registrations taken back, the
+exception is the answer; anything else goes on -/
+def sendResult (seq : Val) (res : PV) : M Unit := do
+  let (r, added) ← boxTop res
+  match r with
+  | .error x =>
+    if x.eof then do unregister added; abortWith seq x
+    else if x.isException then do unregister added; sendExc seq x
+    else abortWith seq x
+  | .ok b =>
     match encodable b with
-    | .error e => sendExc seq (Exc.ofErr e) c st1 fut1
-    | .ok _ =>
-      if st1.closed then ⟨.error eofExc, { st1 with log := st1.log ++ [.aborted seq eofExc.cls] }, fut1⟩
-      else ⟨.ok (), { st1 with log := st1.log ++ [.reply seq b] }, fut1⟩
+    | .error e => do unregister added; sendExc seq (Exc.ofErr e)
+    | .ok _ => sendReply seq b added
+
+/-- what `_dispatch_request` does with the handler's outcome -/
+def answer (seq : Val) (r : Except Exc PV) : M Unit := do
+  let cfg ← getCfg
+  match r with
+  | .ok res => sendResult seq res
+  | .error x =>
+    if (x.sysExit && cfg.propagateSysExit) || (x.kbdInt && cfg.propagateKbdInt) then abortWith seq x
+    else sendExc seq x
 
 /-- `_dispatch_request(seq, raw_args)`: exactly one of reply / exception reply / abort (the exception is re-raised in
 the serving thread, or nothing can be written any more) -/
-def dispatchRequest (seq raw : Val) : M Unit := fun c st fut =>
-  match handleRequest raw c { st with log := st.log ++ [.request seq] } fut with
-  | ⟨.ok res, st1, fut1⟩ => sendResult seq res c st1 fut1
-  | ⟨.error x, st1, fut1⟩ =>
-    if (x.sysExit && c.cfg.propagateSysExit) || (x.kbdInt && c.cfg.propagateKbdInt) then
-      ⟨.error x, { st1 with log := st1.log ++ [.aborted seq x.cls] }, fut1⟩
-    else sendExc seq x c st1 fut1
+def dispatchRequest (seq raw : Val) : M Unit := do
+  push (.request seq)
+  let r ← attempt (handleRequest raw)
+  answer seq r
 
 /-- `_seq_request_callback`: pop the callback; an expired `AsyncResult` drops what it is given -/
 def seqCallback (seq : Val) (a : Ans) : M Unit := fun _ st fut =>
